@@ -192,6 +192,16 @@ def _has_uf(term, only=None):
     return False
 
 
+def _valid_fresh(hyps, goal, timeout_ms=5000):
+    """validity of hyps => goal in a fresh solver (used only to SELECT candidate terms; whatever is
+    selected is then proved in context as an obligation of its own)"""
+    sv = z3.Solver()
+    sv.set("timeout", timeout_ms)
+    sv.add(*hyps)
+    sv.add(z3.Not(goal))
+    return sv.check() == z3.unsat
+
+
 def _nra_lemma(c, name, nvars, build, inst):
     """Prove  forall reals v1..vn: /\\ hyps(v) => concl(v)  in a FRESH solver (pure nonlinear real
     arithmetic, no context), record the outcome as an obligation and, when valid, assume the instance
@@ -366,8 +376,9 @@ def _smoothed_body(cls, vertical):
         sqrt_apps = list(ctx().uf_apps.get("sqrt", {}).values())
         # candidates are pre-filtered structurally so that every solver query asked here is a small one
         plain_divs = [d for d in divs if not _has_uf(d)]
-        dx_t = next((SymNum(d) for d in plain_divs if ctx().implied(d == to_z3_real(s_um.re))), None)
-        R_t = next((SymNum(d) for d in plain_divs if ctx().implied(d == to_z3_real((rad * s_um).re))), None)
+        s_z = to_z3_real(s_um.re)
+        dx_t = next((SymNum(d) for d in plain_divs if _valid_fresh([s_z > 0], d == s_z)), None)
+        R_t = next((SymNum(d) for d in plain_divs if _valid_fresh([s_z > 0], d == to_z3_real((rad * s_um).re))), None)
         if dx_t is not None and R_t is not None and len(sqrt_apps) == 1:
             sa, sq = SymNum(sqrt_apps[0][0][0]), SymNum(sqrt_apps[0][1])
             cz = z3.RealVal(str(rad))
